@@ -538,6 +538,8 @@ func main() {
 	hostileSweep(env, rep, rng, encs, self)
 	nestedSweep(env, rep, rng, self)
 	retrySweep(env, rep, rng, encs)
+	collisionHistory(env, rep, rng)
+	pooledHistory(env, rep, rng)
 	witnesses(env, rep, self)
 	olderVersion(env, rep, rng)
 	rep.Write(env.Out)
@@ -1025,6 +1027,43 @@ func runReplay(env *vh.Env, rep *vh.Report, self string) {
 		switch c.Mode {
 		case "stream":
 			replayStream(rep, c)
+		case "collide": // decode A, then B (What = hexA>hexB), judge the decode of Hex
+			rep.Case("replay-collide:"+c.Hex, true)
+			if i := strings.Index(c.What, ">"); i > 0 {
+				for _, h := range []string{c.What[:i], c.What[i+1:]} {
+					b := vh.UnHex(h)
+					vh.Guard(func() { decodeIn(c.Kind, gio.NewDataInputX(b), b) })
+				}
+			}
+			b := vh.UnHex(c.Hex)
+			var obj interface{}
+			if vh.Guard(func() { obj = decodeIn(c.Kind, gio.NewDataInputX(b), b) }).OK() {
+				e := enc{c.Kind, c.Typ, b}
+				if f := foreign(obj, b, freshOf(e)); f != nil {
+					rep.Fail("property", "fabricated-bytes-across-decodes:"+c.Typ, fmt.Sprintf("%s returns the string %q, which is not in its input", c.Typ, vh.Clip(string(f), 40)), c)
+				}
+			}
+		case "pooled": // Kind = udp:<t>:<verB>, What = <verA>:<hexA>
+			rep.Case("replay-pooled:"+c.Hex, true)
+			var t, verB, verA int
+			var hexA string
+			fmt.Sscanf(c.Kind, "udp:%d:%d", &t, &verB)
+			if i := strings.Index(c.What, ":"); i > 0 {
+				fmt.Sscanf(c.What[:i], "%d", &verA)
+				hexA = c.What[i+1:]
+			}
+			ba, bb := vh.UnHex(hexA), vh.UnHex(c.Hex)
+			var da, db udp.UdpPack
+			if vh.Guard(func() { da = udp.ReadPack(uint8(t), int32(verA), gio.NewDataInputX(ba)) }).OK() && da != nil {
+				udp.ClosePack(da)
+			}
+			if vh.Guard(func() { db = udp.ReadPack(uint8(t), int32(verB), gio.NewDataInputX(bb)) }).OK() && db != nil {
+				if fresh, ok := freshUdp(db, int32(verB), bb); ok {
+					if f := foreign(db, bb, fresh); f != nil {
+						rep.Fail("property", "recycled-object-keeps-data:"+typeName(db), fmt.Sprintf("%s returns the string %q of an earlier datagram", typeName(db), vh.Clip(string(f), 40)), c)
+					}
+				}
+			}
 		case "retry":
 			retryOne(rep, lazyCase{typ: c.Typ, outer: vh.UnHex(c.Hex), what: c.What})
 		case "reuse":
